@@ -28,11 +28,16 @@ try:
     touched = meta.get("files_touched", [])
     pkgdirs = sorted({os.path.dirname(f) for f in touched})
     mm = re.search(r"\./([\w/.-]+?)/?(?:\s|$)", demo_cmd)
-    demodir = mm.group(1) if mm else pkgdirs[0]
     moddir = ""
     for md in ("estargz", "cmd"):
         if demo_cmd.strip().startswith("cd %s" % md) or "(cd %s" % md in demo_cmd:
             moddir = md
+    if mm:
+        demodir = mm.group(1)
+    elif moddir and re.search(r"\s\.\s*$", demo_cmd):
+        demodir = ""          # package "." of the module
+    else:
+        demodir = pkgdirs[0][len(moddir):].lstrip("/") if moddir and pkgdirs[0].startswith(moddir) else pkgdirs[0]
     demopath = os.path.join(wt, moddir, demodir, "zz_seed_demo_test.go")
     os.makedirs(os.path.dirname(demopath), exist_ok=True)
     open(demopath, "w").write(demo)
